@@ -659,6 +659,13 @@ func handleZPOP(params internal.HandlerFuncParams) ([]byte, error) {
 		if c > 0 {
 			count = c
 		}
+		if c < 0 {
+			return nil, errors.New("count must be a positive integer")
+		}
+		if c == 0 {
+			// Nothing to pop (the key is still checked below).
+			count = 0
+		}
 	}
 
 	if !keyExists {
